@@ -211,4 +211,27 @@ def set_reach(rng):
     return 'set_reach', prog, ['start', 'edge', 'back'], inputs
 
 
+def lat_probe(rng):
+    """readers of a finished lattice that bind its lattice column by value: negation, count and a plain clause (finding F22:
+    not part of ALL, used by C04 only, where its failures are matched against the finding's signature)"""
+    prog = Program([Rel('src', [T.I32, T.I32]), Rel('probe', [T.I32, T.I32]), Rel('best', [T.I32, MAXI], is_lat=True), Rel('lo', [T.I32, DUALI], is_lat=True),
+                    Rel('nothit', [T.I32, T.I32]), Rel('nothit_lo', [T.I32, T.I32]), Rel('cnt', [T.I32, T.I32, T.I32]), Rel('hit', [T.I32, T.I32])],
+                   [Rule([Head('best', [V('k'), V('v')]), Head('lo', [V('k'), Dual(V('v'))])], [Clause('src', [AVar('k'), AVar('v')])]),
+                    Rule([Head('nothit', [V('k'), V('v')])], [Clause('probe', [AVar('k'), AVar('v')]), Neg('best', [AVar('k'), AVar('v')])]),
+                    Rule([Head('nothit_lo', [V('k'), V('v')])], [Clause('probe', [AVar('k'), AVar('v')]), Neg('lo', [AVar('k'), AExpr(Dual(V('v')))])]),
+                    Rule([Head('cnt', [V('k'), V('v'), V('n')])], [Clause('probe', [AVar('k'), AVar('v')]),
+                                                                  Agg('n', 'count', [], 'best', [AVar('k'), AVar('v')], None, '(n as i32)', int)]),
+                    Rule([Head('hit', [V('k'), V('v')])], [Clause('probe', [AVar('k'), AVar('v')]), Clause('best', [AVar('k'), AVar('v')])])])
+
+    def inputs(rng):
+        nk = rng.choice([1, 3, 6])
+        rows = [('src', (rng.randrange(nk), rng.randrange(CAP))) for _ in range(rng.randrange(1, 3 * nk + 1))]
+        rows += [('probe', (rng.randrange(nk + 1), rng.randrange(CAP))) for _ in range(rng.randrange(1, 12))]
+        rows += [('probe', t) for r, t in rows if r == 'src' and rng.random() < 0.6]
+        rows = list(dict.fromkeys(rows))
+        rng.shuffle(rows)
+        return rows
+    return 'lat_probe', prog, ['src', 'probe'], inputs
+
+
 ALL = [tc, sp_count, funnel_rel, funnel_lat, neg_agg_chain, lat_contention, noindex_cycle, lat_many_keys, set_reach]
